@@ -379,3 +379,93 @@ def load_pdb_frame(ctx, case):
     xyz = kw["xyz"]
     exp = stub.positions.sym_getitem(None, ([frame], slice(None), slice(None)))
     ctx.ensure("coordinates-are-frame-i-in-nm", isinstance(xyz, TArr) and xyz.base == "pdb.positions" and abs(xyz.scale - 0.1) < 1e-12)
+
+
+# =====================================================================================================
+# md.load: dispatch to the format's loader and joining of file lists
+LOAD_CASES = [(ext, nfiles, with_atoms) for ext in (".xtc", ".h5", ".pdb") for nfiles in (1, 3) for with_atoms in (False, True)]
+
+
+@contract("C02", "mdtraj/core/trajectory.py", "load", cases=LOAD_CASES, covers=["returned"], replay="partial:load")
+def load_dispatch(ctx, case):
+    """every file is handed to the loader registered for the common extension exactly once, in order, with the caller's stride /
+    atom_indices / frame unchanged and the SAME parsed topology; a single file's result is returned as is; several files are
+    joined in order (topology taken from the first); the caller's topology object is not left modified."""
+    ext, nfiles, with_atoms = case
+    log = []
+    TM.install_trajectory_env(ctx, log, ctx.interp.repo)
+    mod = ctx.module("mdtraj/core/trajectory.py")
+    files = [f"/data/part{k}{ext}" for k in range(nfiles)]
+    class CallerTop:
+        """the caller's topology: a plain object (md.load temporarily patches its `subset` attribute)"""
+        n_atoms = _numAtoms = 7
+
+        def subset(self, idx):
+            return ("subset-of-caller-top", idx)
+
+    top = CallerTop()
+    parsed = []
+
+    def parse_topology(interp, args, kwargs):
+        parsed.append((args, kwargs))
+        return top
+
+    ctx.interp.call_models["mdtraj.core.trajectory._parse_topology"] = parse_topology
+    ctx.interp.call_models["mdtraj.core.trajectory._assert_files_exist"] = lambda i, a, k: None
+    ctx.interp.call_models["mdtraj.core.trajectory._assert_files_or_dirs_exist"] = lambda i, a, k: None
+    calls = []
+
+    class Loaded:
+        def __init__(self, k):
+            self.k = k
+            self.topology = ("topology-of-file", k)
+
+        def sym_getattr(self, interp, name):
+            if name == "topology":
+                return self.topology
+            raise core.Unsupported("loaded." + name)
+
+        def sym_setattr(self, interp, name, v):
+            if name == "topology":
+                self.topology = v
+                return
+            raise core.Unsupported("loaded." + name)
+
+    def loader(filename, **kwargs):
+        calls.append((filename, dict(kwargs), "subset" in getattr(kwargs.get("top"), "__dict__", {})))
+        return Loaded(len(calls) - 1)
+
+    loader.__name__ = "load_" + ext[1:]
+    registry = mod.globals["FormatRegistry"]
+    registry.loaders[ext] = loader
+    joined = []
+
+    def join_model(interp, args, kwargs):
+        joined.append((list(args[0]), kwargs))
+        return ("joined", tuple(t.k for t in args[0]))
+
+    ctx.interp.call_models["mdtraj.core.trajectory.join"] = join_model
+    stride = ctx.int("stride")
+    ctx.assume(stride >= 1)
+    atom_indices = TArr("atom_indices", shape=(2,), dtype="int32") if with_atoms else None
+    kw = dict(stride=stride, top=top)
+    if with_atoms:
+        kw["atom_indices"] = atom_indices
+    out = ctx.call(mod.globals["load"], files if nfiles > 1 else files[0], **kw)
+    ctx.ensure("no-exception", not out.raised)
+    if out.raised:
+        return
+    ctx.cover("returned")
+    ctx.ensure("one-loader-call-per-file,in-order", [c[0] for c in calls] == files)
+    for (fn, k, _patched) in calls:
+        ctx.ensure(f"{fn}:stride-passed-unchanged", k.get("stride") is stride)
+        ctx.ensure(f"{fn}:atom_indices-passed-unchanged", k.get("atom_indices") is atom_indices)
+        ctx.ensure(f"{fn}:the-parsed-topology-is-passed", k.get("top") is top)
+    ctx.ensure("topology-parsed-once-from-the-caller's-top", len(parsed) == 1 and parsed[0][0][0] is top)
+    if nfiles == 1:
+        ctx.ensure("single-file:the-loader's-result-is-returned", isinstance(out.value, Loaded) and out.value.k == 0 and not joined)
+    else:
+        ctx.ensure("file-list:results-joined-once,in-order", len(joined) == 1 and [t.k for t in joined[0][0]] == list(range(nfiles)) and out.value == ("joined", tuple(range(nfiles))))
+        if joined:
+            ctx.ensure("file-list:first-trajectory-keeps-its-topology", joined[0][0][0].topology == ("topology-of-file", 0))
+    ctx.ensure("caller's-topology-object-left-unmodified(no-patched-subset)", "subset" not in getattr(top, "__dict__", {}))
